@@ -8,7 +8,7 @@ from ..harness import Harness, run_property
 from .. import core, sym
 
 
-def body_stoprule(E, n, p, max_iter_hi):
+def body_stoprule(E, n, p, max_iter_hi, inplace=False):
     """whenever the loop stops by its tolerance rule, the result is within sqrt(p*tol) of every set"""
     dykstra = E.get('dykstra')
     np = E.np
@@ -21,6 +21,10 @@ def body_stoprule(E, n, p, max_iter_hi):
         def P(w):
             z = E.vec('z%d_' % i, n)
             calls.append((i, z, w.copy()))
+            if inplace:
+                # a user projector may overwrite the array it is given and return that very array
+                w[:] = z
+                return w
             return z
         return P
     P = [mk(i) for i in range(p)]
@@ -136,6 +140,14 @@ def harnesses(tier, seed):
                           assumptions=["projector outputs are arbitrary vectors (a projector onto C_i returns a point of C_i: the distance to z_i bounds the distance to C_i)",
                                        "real arithmetic (rounding not modelled)"],
                           expect=['within-sqrt(p*tol)-of-set-0', 'at-most-max_iter-sweeps', 'projector-argument-is-point-minus-own-correction'], nproc=1))
+    for (n, p, mi) in ([(2, 2, 2)] if tier == 'quick' else [(2, 2, 2), (2, 3, 2), (3, 2, 2)]):
+        hs.append(Harness("stoprule[n=%d,p=%d,max_iter<=%d,in-place-projectors]" % (n, p, mi), 'dfverif.checks.c15', 'body_stoprule',
+                          params=dict(n=n, p=p, max_iter_hi=mi, inplace=True),
+                          cfg=core.Cfg(fork_queries=True, qtimeout_ms=30000 if tier == 'quick' else 90000),
+                          functions=FUNCS, bounds="dimension %d, %d sets, max_iter in [0,%d]; every projector overwrites its argument and returns it" % (n, p, mi),
+                          assumptions=["projector outputs are arbitrary vectors, written into the argument array (the user guide only asks for a function returning the projected point)",
+                                       "real arithmetic (rounding not modelled)"],
+                          expect=['within-sqrt(p*tol)-of-set-0', 'projector-argument-is-point-minus-own-correction'], nproc=1))
     fps = [(1, ('box', 'ball')), (2, ('ball', 'box')), (2, ('half', 'box'))] if tier == 'quick' else \
         [(1, ('box', 'ball')), (2, ('ball', 'box')), (2, ('half', 'box')), (2, ('ball', 'half', 'box')), (3, ('half', 'box')),
          (3, ('box', 'box')), (2, ('half', 'half', 'box'))]      # (n=3 with a ball, 4 sets with two balls: `unknown` after 30-40 min, measured)
